@@ -69,6 +69,12 @@ CHECKS = {
          "Precedence: BOM (6 kinds) x override/transport/parent/likely/default in {absent, valid, invalid, UTF-16 label} x 4 in-window declarations x 4 late declarations (charset, pragma, UTF-16): the stream's (encoding, confidence), the parser's documentEncoding after a possible restart, and tree == tree of the bytes decoded with the reported encoding follow the documented order; a certain encoding is never changed.",
     note="Bytes cannot be symbolic under CrossHair: inputs are chosen by symbolic index and run concretely (data-independence from representatives to all byte values assumed). NOT APPLICABLE dimension: decoding (C codecs). Malformed-markup prescan deviations are one listed known finding (9 minimal inputs). chardet absent. " + NOTE_COMMON,
     design="§3 C06"),
+ "C12": dict(
+    technique="bounded symbolic execution (CrossHair/z3): reuse histories (first use, kind of abort, second use) chosen by symbolic index, second use on the shared object compared with a brand-new object; real handler caches live",
+    text="For every fourth (quick) / every (thorough) of 75 first-use contexts (documents and fragments) x 39 state-leaving tokens (incl. 260 distinct unknown start / end tags that overflow the per-phase handler caches) x {completed, strict-mode ParseError abort, input source failing at the 2nd / 3rd read} x 24 state-sensitive second documents / fragments x {etree, dom}: "
+         "tree and error list of the second parse on the reused HTMLParser equal those of a new parser. HTMLSerializer: 7 x 7 documents, first serialize() abandoned after 0..12 chunks or aborted by a strict SerializeError, then render() equals a new serializer's (output and errors).",
+    note="NOT APPLICABLE dimension: thread interleavings (no scheduler model in CrossHair; nothing claimed about concurrency). Abort points are the first recorded error and source failures after 1 / 2 chunks; histories are length 2. " + NOTE_COMMON,
+    design="§3 C12"),
  "C02": dict(
     technique="bounded symbolic execution (CrossHair/z3) of the real tokenizer state methods from catalogue pre-states on a symbolic continuation of arbitrary Unicode characters, differentially against an independent transcription of the WHATWG tokenizer (R1)",
     text="For every state method of the live HTMLTokenizer class (catalogue rebuilt from /repo at check time: 119 pre-states over 7 configurations = 5 start states x last start tag x CDATA allowed/not) the real tokenizer is run from that pre-state on EVERY string of <= 2 (quick) / 3 (thorough) Unicode characters followed by end of input, "
